@@ -187,7 +187,7 @@ def gen_cols(rng, avail):
 
 
 def gen_idx(rng, stored):
-    """index argument over STORED (non-partition) columns, at most one name: the region where the property is claimed"""
+    """index argument: default / False / one available column (stored or partition)"""
     r = rng.random()
     if r < 0.45:
         return {"kind": "default", "names": []}
@@ -198,6 +198,7 @@ def gen_idx(rng, stored):
 
 
 def gen_program(rng, ds, avail, stored, cats):
+    stored = avail if rng.random() < 0.5 else stored        # index candidates: with or without the partition columns
     nops = rng.choice([0, 0, 1, 1, 1, 2, 2, 3])
     ops = [gen_op(rng, ds) for _ in range(nops)]
     n = sum(ds["sizes"])
@@ -641,10 +642,10 @@ def classify(ds, base, prog, probs, res):
     msg = res[2] if res[0] == "fail" else ""
     if len(inames) >= 2:
         comp = "multi-index"
-    elif any(n in base["pcols"] for n in inames):
-        comp = "partition-index"
     elif base["pcols"] and nsel == 0 and what in ("columns", "error"):
         comp = "empty-selection-partition-columns"
+    elif any(n in base["pcols"] for n in inames):
+        comp = "partition-index"
     elif any(k in F.NULLABLE_INT or k == "boolean" for k in ikinds) and "NAType" in msg:
         comp = "nullable-index"
     elif (rd[0] == "iter" and rd[3] is not None and "NAType" in msg
@@ -695,7 +696,7 @@ def run_dataset(job):
 
 
 def confirmation_programs(rng, ds, base):
-    """the known-bad regions, a handful per dataset: an index of two names; a partition column as the index"""
+    """the known-bad region (an index of two names), a handful per dataset; plus fixed partition-column-as-index programs"""
     out = []
     # two names over REQUIRED numeric columns only: with an optional column as a level the real code stores raw values as
     # level codes and the frame cannot even be inspected safely (segfault seen) - recorded in the finding, not re-run here
@@ -706,6 +707,6 @@ def confirmation_programs(rng, ds, base):
         out.append({"ops": [], "rd": ["head", base["total"], ["u"], {"kind": "list", "names": [a, b]}], "stream": "confirm-multi-index"})
     if base["pcols"]:
         p = rng.choice(base["pcols"])
-        out.append({"ops": [], "rd": ["to_pandas", None, {"kind": "str", "names": [p]}], "stream": "confirm-partition-index"})
-        out.append({"ops": [gen_slice(rng)], "rd": ["head", 3, ["id", p], {"kind": "list", "names": [p]}], "stream": "confirm-partition-index"})
+        out.append({"ops": [], "rd": ["to_pandas", None, {"kind": "str", "names": [p]}], "stream": "partition-index"})
+        out.append({"ops": [gen_slice(rng)], "rd": ["head", 3, ["id", p], {"kind": "list", "names": [p]}], "stream": "partition-index"})
     return out
